@@ -5,7 +5,7 @@
    Model: Yaml/Walk.v (walker, generic in sources and visitor) + Yaml/Merge2.v (Merger visitor, directives).
    [sch] (openapi projection), [opts] (infer / prepend / AssociativeSequenceKeys) and [nonstr]
    (yaml.IsValueNonString) are universally quantified parameters. *)
-From KV Require Import Yaml.Walk Yaml.WalkProofs Yaml.WalkFields Yaml.Merge2 Yaml.Merge2Proofs
+From KV Require Import Yaml.Walk Yaml.WalkProofs Yaml.WalkFields Yaml.Merge2 Yaml.Merge2Proofs Yaml.Merge2Identity Yaml.Merge2IdentityProofs
      Yaml.Merge2Frame Yaml.Merge2Examples Corr.SchemaTable Yaml.Merge3 Yaml.Merge3Examples Yaml.WalkGenProofs Gen.WalkTables.
 
 (* merge2.Merge at the canonical fuel S(sum of depths) never runs out of fuel: for every schema, option
@@ -122,6 +122,40 @@ Theorem C04_walk_fields_fieldwise :
 Proof. exact (@walk_fields_map). Qed.
 Print Assumptions C04_walk_fields_fieldwise.
 
+(* ---------- identity preservation (api/resource Resource.ApplySmPatch) ---------- *)
+
+(* After ApplySmPatch, when the resource is not deleted (nil / empty result), the kind and name read back are the
+   target's unless the patch carries allowKindChange / allowNameChange, and the namespace read back is ALWAYS the
+   target's (absent stays absent) -- for every patch, whatever kind / name / namespace its text carries, every
+   schema and every target. Side condition: the merged node is a mapping whose metadata, if present, is a mapping
+   with pairwise different keys (SetName / SetNamespace go through Lookup("metadata"), whose errors ApplySmPatch
+   drops); C04_identity_kept_inputs discharges it from the inputs for plain patches. *)
+Theorem C04_identity_kept :
+  forall (Sc : Type) (sch : schema Sc) (assoc_keys : list string) (nonstr : string -> bool) (patch target r : node),
+    apply_sm_patch sch assoc_keys nonstr patch target = Ok (Some r) ->
+    nil_or_empty r = false ->
+    (forall x, merge2 sch (mkOpts false true assoc_keys) nonstr (Some patch) (Some target) = Ok (Some x) -> wf_root x) ->
+    (kind_change_allowed patch = false -> get_kind r = get_kind target) /\
+    (name_change_allowed patch = false -> get_name r = get_name target) /\
+    get_namespace r = get_namespace target.
+Proof. exact (@apply_sm_patch_identity). Qed.
+Print Assumptions C04_identity_kept.
+
+(* the same from hypotheses on the inputs only: target a mapping with pairwise different keys whose metadata is a
+   mapping with pairwise different keys; patch a mapping without "$patch" at the root and on metadata *)
+Theorem C04_identity_kept_inputs :
+  forall (Sc : Type) (sch : schema Sc) (assoc_keys : list string) (nonstr : string -> bool)
+         (pk tk mk : list (string * node)) (r : node),
+    nodupk tk -> find_field "metadata"%string tk = Some (Map mk) -> nodupk mk ->
+    find_field smp_key pk = None -> plain_patch (find_field "metadata"%string pk) ->
+    apply_sm_patch sch assoc_keys nonstr (Map pk) (Map tk) = Ok (Some r) ->
+    nil_or_empty r = false ->
+    (kind_change_allowed (Map pk) = false -> get_kind r = get_kind (Map tk)) /\
+    (name_change_allowed (Map pk) = false -> get_name r = get_name (Map tk)) /\
+    get_namespace r = get_namespace (Map tk).
+Proof. exact (@apply_sm_patch_identity_plain). Qed.
+Print Assumptions C04_identity_kept_inputs.
+
 (* ---------- obligations over the tables regenerated from /repo (Gen/WalkTables.v) ---------- *)
 
 (* the model's directive key and directive spellings are the source's *)
@@ -161,3 +195,9 @@ Theorem Gen_C04_assoc_keys :
   o_assoc_keys Merge3Examples.iopts = gen_assoc_keys.
 Proof. exact gen_assoc_keys_ok. Qed.
 Print Assumptions Gen_C04_assoc_keys.
+
+(* the identity model reads the source's allow annotations *)
+Theorem Gen_C04_allow_keys :
+  gen_allow_name_key = allow_name_key /\ gen_allow_kind_key = allow_kind_key /\ gen_enabled = "enabled"%string.
+Proof. exact gen_allow_keys_ok. Qed.
+Print Assumptions Gen_C04_allow_keys.
